@@ -331,3 +331,50 @@ def result_error_propagates(fn, local):
     if not edges:
         return False
     return all(err_edge_propagates(fn, swb, okt, errt) for (swb, okt, errt) in edges)
+
+
+def guards(fn, block):
+    """Conditions known at `block`: every switch edge whose target has the switch as its only predecessor and
+    dominates `block`.  Returns dicts: {sw: switch block, value: case value string or 'else', si: switch_info,
+    src: Src of the tested value, neg_values: values excluded when on the else edge}."""
+    out = []
+    for sb in sorted(fn.reachable_blocks()):
+        t = fn.term(sb)
+        if t["k"] != "switch":
+            continue
+        targets = [(v, tg) for v, tg in t["cases"]] + [("else", t["else"])]
+        for v, tg in targets:
+            if tg == sb:
+                continue
+            if fn.pred(tg) == [sb] and fn.dominates(tg, block) and sum(1 for _, x in targets if x == tg) == 1:
+                si = switch_info(fn, sb)
+                out.append({"sw": sb, "value": v, "si": si, "src": si["src"] if si else None,
+                            "neg_values": [c[0] for c in t["cases"]] if v == "else" else []})
+    return out
+
+
+def guard_is_true(g):
+    """for a bool switch: is this the 'true' edge?"""
+    return g["value"] == "else" and g["neg_values"] == ["0"] or g["value"] == "1"
+
+
+def guard_is_false(g):
+    return g["value"] == "0"
+
+
+def controlling_switches(fn, block):
+    """switch blocks from which `block` is entered through straight-line (non-branching) blocks only."""
+    out = []
+    seen = set()
+    work = [block]
+    while work:
+        b = work.pop()
+        for p in fn.pred(b):
+            if p in seen:
+                continue
+            seen.add(p)
+            if fn.term(p)["k"] == "switch":
+                out.append((p, b))
+            else:
+                work.append(p)
+    return out
